@@ -92,10 +92,11 @@ Definition can_redirect_old (domains : list bs) (npatterns : nat) (re_matched : 
   end.
 
 (* ---- the client AS CONFIGURED.  configured_domains = the allowed_redirect_domains strings exactly as they
-   stand in the configuration file; rc_public = the client has no secret (a public / PKCE client).
+   stand in the configuration file; rc_public = the client has no secret (a public / PKCE client);
+   rc_options = the values of every other boolean option of the client record (whichever options exist).
    The loader hands the entries to the validator byte for byte (loaded_domains = identity: no trimming, no
    case folding, no URL-form "normalisation"), and no client kind relaxes any clause of the decision. *)
-Record rclient := { rc_public : bool; configured_domains : list bs }.
+Record rclient := { rc_public : bool; rc_options : list bool; configured_domains : list bs }.
 Definition loaded_domains (c : rclient) : list bs := configured_domains c.
 Definition can_redirect_c (c : rclient) (pats : list pres) (parse : option parsed) : option bool :=
   can_redirect_p (loaded_domains c) pats parse.
